@@ -2,6 +2,7 @@
 import itertools
 
 import numpy as np
+import scipy.linalg
 import scipy.special
 
 from vlib import env
@@ -176,7 +177,45 @@ def sum_body(ctx, case):
         ctx.fail("sum:complex-weight", case, "weights are complex")
         return
     if np.any(P <= 1e-12) or np.any(w == 0) or not np.all(np.isfinite(w)):
-        ctx.count("skipped:constraint-active-or-branch-impossible")
+        # legitimate only if a constraint is really active: verify with exact Fock overlaps that some branch along some path has a non-positive ratio
+        psi_t = trial_fock(n, nelec, t, C)
+        K = F.one_body(h1, h1)
+        idx_s = F.sector(*nelec)
+        gam = np.arccosh(np.exp(dt * U / 2))
+        cst = np.exp(-dt * U / 2)
+        hs = cst * np.array([[np.exp(gam), np.exp(-gam)], [np.exp(-gam), np.exp(gam)]])
+        e_half = scipy.linalg.expm(-dt / 2 * h1)
+        constrained = False
+        for c in range(nconf):
+            Wu_, Wd_ = e_half @ wu, e_half @ wdn
+            o_prev = np.vdot(psi_t, F.slater(Wu_, Wd_)).real
+            if o_prev <= 0:
+                constrained = True
+                break
+            for k in range(n):
+                ratios = []
+                for x in (0, 1):
+                    A, B = Wu_.copy(), Wd_.copy()
+                    A[k, :] *= hs[x, 0]
+                    B[k, :] *= hs[x, 1]
+                    ratios.append(np.vdot(psi_t, F.slater(A, B)).real / o_prev)
+                if min(ratios) < 1e-6:
+                    constrained = True
+                    break
+                x = int(confs[c, k])
+                Wu_[k, :] *= hs[x, 0]
+                Wd_[k, :] *= hs[x, 1]
+                o_prev = np.vdot(psi_t, F.slater(Wu_, Wd_)).real
+            if constrained:
+                break
+            o_fin = np.vdot(psi_t, F.slater(e_half @ Wu_, e_half @ Wd_)).real
+            if o_fin / o_prev < 1e-6:
+                constrained = True
+                break
+        if constrained:
+            ctx.count("skipped:constraint-active")
+            return
+        ctx.fail(f"sum:branch-never-taken-although-unconstrained:{t['trial_kind']}", case, f"measured branch probabilities {P.tolist()} / weights {w.tolist()} although every exact overlap ratio along every path is positive")
         return
     if abs(P.sum() - 1) > 1e-9:
         ctx.fail(f"sum:probabilities-not-normalised:{t['trial_kind']}", case, f"measured branch probabilities sum to {P.sum()!r}")
